@@ -15,9 +15,16 @@ Domain
     is canonicalised *extensionally* (applied to fresh symbols), so alpha-equivalent / eta-equivalent callables coincide;
   * `Obj` is an instance of a repository class with a mutable attribute store (the heap), `Rec` an immutable record
     (namedtuple or field-annotated class instance).
+Arrays
+  * `jax.vmap(f, in_axes)(*args)` is beta-normalised (`call_vmapped`): unmapped arguments are substituted into the body, mapped ones become
+    element symbols in a canonical order; a body equal to a mapped argument is that argument, a body that ignores them a broadcast;
+    `broadcast_to(x, (n,) + x.shape)`, `repeat(x[None], n, axis=0)` are the same `bcast` term; len(x) is x.shape[0]; `a, b = x.shape`
+    records the number of axes of x; component i of a pull-back with several primals is the single-primal pull-back (`mk_deriv`).
 Control
   * a branch on an undecidable condition forks: the function is re-run once per decision vector (`paths`); decisions are
     memoised per path on the *normalised atom* (`x != None`, `x is not None`, `not x is None`, `x == None` share one atom);
+  * a `dict` literal indexed by a symbolic key, `x in (literals)` and `match` on literals fork like the if-chain they abbreviate;
+    `with` blocks run their body; `try` blocks are followed as long as nothing raises;
   * calls of repository functions are inlined when the policy says so; everything else is an opaque application with the
     arguments bound to the callee's parameter list (keyword / positional / defaults normalised); opaque calls are logged
     as *events* with the callables among the arguments frozen under the heap of that moment;
@@ -192,6 +199,11 @@ def show(c, depth=0) -> str:
         return f"jvp({s(c[1])}, {s(c[2])}, {s(c[3])})[1]"
     if k == "bound":
         return f"{s(c[1])}.{str(c[2]).split('.')[-1]}"
+    if k == "bcast" and len(c) == 3:
+        return f"broadcast({s(c[1])}, shape=(" + ", ".join((s(q[1]) if q[0] == "dim" else f"*{s(q[1])}.shape") for q in c[2][1:]) + "))"
+    if k == "vmap" and len(c) == 4:
+        over = ", ".join(f"{s(e)} in {s(m[1])}" + ("" if m[2] == ("c", 0) else f" axis {raw(m[2])}") for e, m in zip(c[2][1:], c[3][1:]))
+        return f"map({s(c[1])} for {over})"
     return str(k) + "(" + ", ".join(s(x) for x in c[1:]) + ")"
 
 
@@ -215,6 +227,18 @@ def subst(c, old, new):
         if len(c) == 5 and c[0] == "lam" and isinstance(c[4], tuple) and old in c[4]:
             return c
         return tuple(subst(x, old, new) for x in c)
+    return c
+
+
+def subst_many(c, mapping):
+    """simultaneous substitution of canonical keys (binders of `lam` hide their own parameters)"""
+    if c in mapping:
+        return mapping[c]
+    if isinstance(c, tuple):
+        if len(c) == 5 and c[0] == "lam" and isinstance(c[4], tuple) and any(z in mapping for z in c[4]):
+            inner = {k: v for k, v in mapping.items() if k not in c[4]}
+            return c if not inner else (c[0], c[1], subst_many(c[2], inner), subst_many(c[3], inner), c[4])
+        return tuple(subst_many(x, mapping) for x in c)
     return c
 
 
@@ -268,6 +292,8 @@ class Interp:
         self.loop_once = False            # a `for` over an opaque iterable runs its body once on a fresh loop symbol (one generic iteration)
         self.loop_done = []               # local variables at the end of each such generic iteration that ran to its end
         self.sym_types = {}               # symbol name -> (record type name, fields, number of defaulted fields): a symbol known to be such a record
+        self.ranks = {}                   # canonical array term -> number of axes (learned from `a, b = x.shape`)
+        self.sym_reads = {}               # symbol name -> attribute names read off the symbol (on any path, whatever became of the value)
 
     # ------------------------------------------------------------------ terms
     def mk(self, op, args, extra=None):
@@ -420,7 +446,16 @@ class Interp:
     def mk_deriv(self, kind, f, primals, other, index=None):
         fc = self.canon_fn(f, len(primals))
         if kind == "vjp":
-            c = ("vjp", fc, self.canon(tuple(primals)), self.canon(other), ("c", index))
+            pc = self.canon(tuple(primals))
+            if len(primals) > 1 and isinstance(fc, tuple) and fc[0] == "lam" and fc[1] == len(primals) and not fc[2] and isinstance(index, int) \
+                    and 0 <= index < len(primals):
+                # component `index` of the pull-back of f(x0, ..., xn) = pull-back of z -> f(x0, ..., z, ..., xn) at x_index
+                zs = fc[4]
+                z0 = ("sym", f"%{self.lamdepth}.0")
+                mapping = {z: (z0 if j == index else pc[1 + j]) for j, z in enumerate(zs)}
+                fc = ("lam", 1, (), subst_many(fc[3], mapping), (z0,))
+                pc, index = ("tuple", pc[1 + index]), 0
+            c = ("vjp", fc, pc, self.canon(other), ("c", index))
         else:
             c = ("jvp", fc, self.canon(tuple(primals)), self.canon(tuple(other)))
         return T(kind, (f, tuple(primals), other, index), c)
@@ -428,10 +463,11 @@ class Interp:
     # ------------------------------------------------------------------ heap snapshots
     def snapshot(self):
         return ([(o, dict(o.attrs)) for o in self.objs], dict(self.opaque_attrs), len(self.events), len(self.trace), dict(self.known),
-                len(self.objs), dict(self.duck_obj))
+                len(self.objs), dict(self.duck_obj), dict(self.ranks))
 
     def restore(self, snap):
-        objs, oa, ne, nt, known, nobj, dobj = snap
+        objs, oa, ne, nt, known, nobj, dobj, ranks = snap
+        self.ranks = ranks
         for o, a in objs:
             o.attrs = a
         self.opaque_attrs = oa
@@ -537,13 +573,29 @@ class Interp:
         return self.lookup(e.id, env)
 
     def e_Tuple(self, e, env):
-        out = []
+        out, segs = [], []
         for x in e.elts:
             if isinstance(x, ast.Starred):
-                out += list(self.iterate(self.eval(x.value, env)))
+                v = self.eval(x.value, env)
+                try:
+                    out += list(self.iterate(v))
+                except EvalError:
+                    if not isinstance(v, T):
+                        raise
+                    # (a, *t) with an opaque sequence t (a shape, ...): the concatenation (a,) + t
+                    segs += [tuple(out), v]
+                    out = []
             else:
                 out.append(self.eval(x, env))
-        return tuple(out)
+        if not segs:
+            return tuple(out)
+        if out:
+            segs.append(tuple(out))
+        segs = [s for s in segs if not (isinstance(s, tuple) and not s)]
+        v = segs[0]
+        for s in segs[1:]:
+            v = self.binop("+", v, s)
+        return v
 
     def e_List(self, e, env):
         return list(self.e_Tuple(e, env))
@@ -630,8 +682,16 @@ class Interp:
         if opn == "*" and isinstance(a, (tuple, list)) and isinstance(b, int):
             return a * b
         if opn == "%" and isinstance(a, str):
+            flat = b if isinstance(b, tuple) else (b,)
+            if all(isinstance(x, (int, float, str)) and not isinstance(x, bool) for x in flat):
+                try:
+                    return a % b
+                except (TypeError, ValueError):
+                    raise Crash("string formatting with mismatching operands")
             return "<fstring>"
-        if opn in ("+", "*"):
+        seq = lambda x: isinstance(x, (tuple, list, str)) or (isinstance(x, T) and (x.op == "attr" and x.args[1] == "shape" or
+                                                                                     x.op == "bin" and x.args[0] == "+" and (seq(x.args[1]) or seq(x.args[2]))))
+        if opn in ("+", "*") and not (opn == "+" and (seq(a) or seq(b))):
             ca, cb = self.canon(a), self.canon(b)
             if repr(cb) < repr(ca):
                 a, b = b, a
@@ -656,6 +716,11 @@ class Interp:
                 raise EvalError("comparison of incomparable constants")
         if opn in ("in", "not in") and isinstance(b, (tuple, list, dict)) and conc(a) and all(conc(x) for x in b):
             return (a in b) if opn == "in" else (a not in b)
+        if opn in ("in", "not in") and isinstance(b, (tuple, list, dict)) and isinstance(a, T) and all(conc(x) and not isinstance(x, tuple) for x in b) \
+                and not self.in_canon:
+            # membership of a symbolic value in a literal container: decided like the chain of equalities it abbreviates
+            hit = any(self.truth(self.compare("==", a, k)) for k in b)
+            return hit if opn == "in" else not hit
         # records, objects, closures are never None / never equal to a constant
         solid = (Rec, Obj, Closure, Bound, Partial, Pullback, NTClass, ClassV, ModuleV, dict, list)
         is_solid = lambda x: isinstance(x, solid) or self.typed(x) is not None
@@ -757,11 +822,13 @@ class Interp:
             raise EvalError("symbolic index into a record")
         if isinstance(base, dict):
             if isinstance(key, T):
-                raise EvalError("symbolic dict key")
+                return self.dict_lookup(base, key, None, False)
             if key not in base:
                 raise Crash(f"key {key!r} missing")
             return base[key]
         if isinstance(base, T):
+            if base.op == "attr" and base.args[1] == "shape" and conc_int and key == 0:
+                return self.dim(base.args[0], 0)          # leading extent: known for broadcasts and mapped results
             ty = self.typed(base)
             if ty is not None:
                 n = len(ty[1])
@@ -773,6 +840,17 @@ class Interp:
                     return tuple(self.as_rec(base).values)[key]
             return self.mk("item", (base, key))
         raise EvalError(f"subscript of {type(base).__name__}")
+
+    def dict_lookup(self, d, key, default, has_default):
+        """d[key] / d.get(key, default) for a symbolic key and literal keys: the chain `if key == k1: ... elif key == k2: ...` (forks)"""
+        if self.in_canon or not all(k is None or isinstance(k, (bool, int, float, str)) for k in d):
+            raise EvalError("symbolic dict key")
+        for k in d:
+            if self.truth(self.compare("==", key, k)):
+                return d[k]
+        if has_default:
+            return default
+        raise Crash(f"key `{show(self.canon(key))[:40]}` missing (none of {list(d)[:6]})")
 
     def deref(self, v):
         if isinstance(v, T) and v.op == "sym" and v.args[0] in self.duck_obj:
@@ -874,6 +952,8 @@ class Interp:
         if isinstance(base, T):
             if base.op == "ext":
                 return self.ext(base.args[0] + "." + a)
+            if base.op == "sym":
+                self.sym_reads.setdefault(base.args[0], set()).add(a)
             ty = self.typed(base)
             if ty is not None and (a in ty[1] or a in ("_fields", "_replace", "_asdict")):
                 return self.getattr(self.as_rec(base), a)
@@ -1049,12 +1129,160 @@ class Interp:
         if isinstance(f, T):
             if f.op == "ext":
                 return self.call_ext(f.args[0], args, kwargs)
+            if f.op == "app" and isinstance(f.args[0], T) and f.args[0].op == "ext" and f.args[0].args[0] == "jax.vmap" and len(f.args[1]) == 3 and not f.args[2]:
+                r = self.call_vmapped(f, args, kwargs)
+                if r is not None:
+                    return r
             return self.opaque(f, args, kwargs)
         raise EvalError(f"call of {type(f).__name__}")
+
+    # ------------------------------------------------------------------ mapped computations and broadcasts (array-shape semantics)
+    def mk_bcast(self, v, n):
+        """`v` replicated along a new leading axis of length `n`"""
+        vc = self.canon(v)
+        return T("bcast", (v, n), ("bcast", vc, ("tuple", ("dim", self.canon(n)), ("all", vc))))
+
+    def dim(self, x, axis):
+        """term for the extent of array `x` along `axis`; len(x), x.shape[0], the length of a broadcast / of a mapped result coincide"""
+        if isinstance(x, T) and axis == 0:
+            if x.op == "bcast":
+                return x.args[1]
+            if x.op == "vmap":
+                return x.args[1]
+        return self.mk("item", (self.mk("attr", (x, "shape")), axis))
+
+    def call_vmapped(self, vt, args, kwargs):
+        """jax.vmap(fun, in_axes, out_axes)(*args) in normal form.  Arguments with axis None are constants of the map: they are
+        substituted into the body (so closing over them, binding them with partial or passing them with in_axes=None is one and the same
+        value); the mapped arguments become element symbols, numbered in a canonical order.  A body that is one of its mapped arguments
+        is that argument; a body that uses no mapped argument is a broadcast of its value along the mapped extent.  None: not understood
+        (the caller keeps the opaque application)."""
+        fun, in_axes, out_axes = vt.args[1]
+        if kwargs or not (isinstance(out_axes, int) and not isinstance(out_axes, bool) and out_axes == 0):
+            return None
+        n = len(args)
+        if in_axes is None or (isinstance(in_axes, int) and not isinstance(in_axes, bool)):
+            axes = [in_axes] * n
+        elif isinstance(in_axes, (tuple, list)) and len(in_axes) == n and all(a is None or (isinstance(a, int) and not isinstance(a, bool)) for a in in_axes):
+            axes = list(in_axes)
+        else:
+            return None
+        if any(isinstance(a, T) and a.op == "star" for a in args) or all(a is None for a in axes):
+            return None
+        vals = list(args)
+        try:
+            first = next(i for i in range(n) if axes[i] is not None)
+            extent = self.dim(vals[first], axes[first])
+            for i in range(n):
+                if axes[i] == 0 and isinstance(vals[i], T) and vals[i].op == "bcast":
+                    vals[i], axes[i] = vals[i].args[0], None          # mapping over a broadcast: a constant of the map
+            keys = {}
+            for i in range(n):
+                if axes[i] is not None:
+                    keys.setdefault((self.canon(vals[i]), axes[i]), vals[i])
+        except EvalError:
+            return None
+        order = sorted(keys, key=repr)
+        d = self.lamdepth
+        esym = {k: self.sym(f"%v{d}.{j}") for j, k in enumerate(order)}
+        actual = [vals[i] if axes[i] is None else esym[(self.canon(vals[i]), axes[i])] for i in range(n)]
+        snap = self.snapshot()
+        self.lamdepth += 1
+        self.in_canon += 1
+        try:
+            body = self.call(fun, actual, {})
+            flat = list(body) if isinstance(body, (tuple, list)) else [body]
+            cs = [self.canon(b) for b in flat]
+        except (EvalError, Crash, Raised, RecursionError):
+            return None
+        finally:
+            self.in_canon -= 1
+            self.lamdepth -= 1
+            self.restore(snap)
+        if any(isinstance(b, (Rec, Obj, dict, Closure, Bound, Partial, Pullback)) for b in flat):
+            return None
+        elems = tuple(esym[k].c for k in order)
+        mapped = tuple(("tuple", k[0], ("c", k[1])) for k in order)
+        out = []
+        for b, c in zip(flat, cs):
+            hit = [k for k in order if esym[k].c == c]
+            if hit and hit[0][1] == 0:
+                out.append(keys[hit[0]])                              # identity map
+            elif not any(occurs(c, e) for e in elems):
+                out.append(self.mk_bcast(b, extent))                  # the body ignores the mapped arguments: a broadcast
+            else:
+                out.append(T("vmap", (b, extent, tuple(keys[k] for k in order)), ("vmap", c, ("tuple",) + elems, ("tuple",) + mapped)))
+        return tuple(out) if isinstance(body, (tuple, list)) else out[0]
+
+    def rank_of(self, x):
+        return self.ranks.get(self.canon(x))
+
+    def shape_parts(self, v):
+        """a shape expression as a list of ('dim', extent) / ('all', array) segments (`(n,) + x.shape`, `(n, *x.shape)`, `(n, a, b)` with
+        `a, b = x.shape`), None when it is not understood"""
+        if isinstance(v, (tuple, list)):
+            parts = [("dim", x) for x in v]
+        elif isinstance(v, T) and v.op == "attr" and v.args[1] == "shape":
+            parts = [("all", v.args[0])]
+        elif isinstance(v, T) and v.op == "bin" and v.args[0] == "+":
+            a, b = self.shape_parts(v.args[1]), self.shape_parts(v.args[2])
+            if a is None or b is None:
+                return None
+            parts = a + b
+        else:
+            return None
+        # x.shape[0], ..., x.shape[k-1] with rank(x) == k known: all of x.shape
+        out, i = [], 0
+        while i < len(parts):
+            kind, x = parts[i]
+            if kind == "dim" and isinstance(x, T) and x.op == "item" and x.args[1] == 0 and isinstance(x.args[0], T) and x.args[0].op == "attr" \
+                    and x.args[0].args[1] == "shape":
+                arr = x.args[0].args[0]
+                k = self.rank_of(arr)
+                if k is not None and i + k <= len(parts) and all(parts[i + j][0] == "dim" and self.canon(parts[i + j][1]) == self.canon(self.dim(arr, j)) for j in range(k)):
+                    out.append(("all", arr))
+                    i += k
+                    continue
+            out.append(parts[i])
+            i += 1
+        return out
+
+    def strip_newaxis(self, x):
+        """x0 when x is x0 with a new leading axis of length one (x0[None], x0[None, ...], expand_dims(x0, 0)), else None"""
+        if not isinstance(x, T):
+            return None
+        isnone = lambda k: k is None or (isinstance(k, T) and k.op == "ext" and k.args[0].split(".")[-1] == "newaxis")
+        if x.op == "item":
+            k = x.args[1]
+            if isnone(k) or (isinstance(k, tuple) and len(k) == 2 and isnone(k[0]) and k[1] is Ellipsis):
+                return x.args[0]
+        if x.op == "app" and isinstance(x.args[0], T) and x.args[0].op == "ext" and x.args[0].args[0].split(".")[-1] == "expand_dims":
+            a, kw = list(x.args[1]), dict(x.args[2])
+            axis = a[1] if len(a) > 1 else kw.get("axis")
+            if a and isinstance(axis, int) and not isinstance(axis, bool) and axis == 0:
+                return a[0]
+        return None
+
+    def as_broadcast(self, x, shape):
+        """broadcast_to(x, shape) as a replication of x along a new leading axis, when shape is (n,) + x.shape"""
+        parts = self.shape_parts(shape)
+        if parts is None:
+            return None
+        if len(parts) == 2 and parts[0][0] == "dim" and parts[1][0] == "all":
+            x0 = self.strip_newaxis(x)
+            tgt = self.canon(parts[1][1])
+            if self.canon(x) == tgt:
+                return self.mk_bcast(x, parts[0][1])
+            if x0 is not None and self.canon(x0) == tgt:
+                return self.mk_bcast(x0, parts[0][1])
+        # any other target shape that is understood: same constructor, so that two broadcasts of one array differ in a named extent
+        return T("bcastto", (x, parts), ("bcast", self.canon(x), ("tuple",) + tuple((k, self.canon(v)) for k, v in parts)))
 
     def call_pymethod(self, base, name, args, kwargs):
         if isinstance(base, dict):
             if name == "get":
+                if isinstance(args[0], T):
+                    return self.dict_lookup(base, args[0], args[1] if len(args) > 1 else None, True)
                 return base.get(args[0], args[1] if len(args) > 1 else None)
             if name == "items":
                 return list(base.items())
@@ -1062,16 +1290,41 @@ class Interp:
                 return list(base.keys())
             if name == "values":
                 return list(base.values())
+            if name == "copy" and not args:
+                return dict(base)
+            if name == "update" and len(args) <= 1:
+                if args and not isinstance(args[0], dict):
+                    raise EvalError("dict.update with a non-dict argument")
+                for d in list(args) + [kwargs]:
+                    if any(isinstance(k, T) for k in d):
+                        raise EvalError("symbolic dict key")
+                    base.update(d)
+                return None
+            if name == "pop" and args and not isinstance(args[0], T):
+                if args[0] in base:
+                    return base.pop(args[0])
+                if len(args) > 1:
+                    return args[1]
+                raise Crash(f"key {args[0]!r} missing")
+            if name == "setdefault" and args and not isinstance(args[0], T):
+                return base.setdefault(args[0], args[1] if len(args) > 1 else None)
         if isinstance(base, (tuple, list)) and name == "index" and len(args) == 1 and not isinstance(args[0], T):
             return list(base).index(args[0])
         if isinstance(base, list) and name == "append":
             base.append(args[0])
             return None
+        if isinstance(base, str) and name == "format" and all(isinstance(x, (int, float, str)) and not isinstance(x, bool) for x in list(args) + list(kwargs.values())):
+            try:
+                return base.format(*args, **kwargs)
+            except (IndexError, KeyError, ValueError):
+                raise Crash("str.format with mismatching arguments")
         if isinstance(base, str) and name in ("format", "join", "lower", "upper", "strip"):
             return "<fstring>" if name in ("format", "join") else getattr(base, name)()
         raise EvalError(f"method {name} of {type(base).__name__}")
 
     def make_record(self, nt: NTClass, args, kwargs):
+        if any(isinstance(a, T) and a.op == "star" for a in args):
+            raise EvalError(f"{nt.name}(*opaque sequence)")
         if len(args) > len(nt.fields):
             raise Crash(f"{nt.name} takes {len(nt.fields)} fields, {len(args)} given")
         vals = {f: a for f, a in zip(nt.fields, args)}
@@ -1091,11 +1344,20 @@ class Interp:
     def instantiate(self, cls: Scope, args, kwargs, label=None):
         init = self.find_method(cls, "__init__")
         if init is None:
-            fields = []
+            fields, defaults = [], []
             for c in reversed(self.repo.class_mro(cls)):
-                fields += [st.target.id for st in c.node.body if isinstance(st, ast.AnnAssign) and isinstance(st.target, ast.Name)]
+                for st in c.node.body:
+                    if isinstance(st, ast.AnnAssign) and isinstance(st.target, ast.Name):
+                        fields.append(st.target.id)
+                        if st.value is not None:
+                            defaults.append(self.eval(st.value, self.module_env(c.module)))
+                        elif defaults:
+                            defaults = None
+                            break
+                if defaults is None:
+                    break
             if fields and args is not None:
-                return self.make_record(NTClass(cls.name, fields), args, kwargs)
+                return self.make_record(NTClass(cls.name, fields, tuple(defaults or ())), args, kwargs)
             if args is None:
                 raise EvalError(f"class {cls.name} has no constructor to initialise a symbolic instance")
             return self.opaque(T("cls", (cls.qualname,), ("cls", cls.qualname)), args, kwargs)
@@ -1136,20 +1398,27 @@ class Interp:
     def bind_params(self, sc: Scope, env: Env, args, kwargs, defenv):
         ps = sc.params()
         q = sc.qualname
-        if sc.has_varargs() or sc.has_kwargs():
-            raise EvalError(f"*args/**kwargs signature of {q}")
         if any(isinstance(a, T) and a.op == "star" for a in args):
             raise EvalError("starred opaque argument")
         if len(args) > len(ps):
-            raise Crash(f"{sc.name}() takes {len(ps)} positional arguments but {len(args)} were given")
+            if not sc.has_varargs():
+                raise Crash(f"{sc.name}() takes {len(ps)} positional arguments but {len(args)} were given")
+        if sc.has_varargs():
+            env.vars[sc.node.args.vararg.arg] = tuple(args[len(ps):])
         for p_, a in zip(ps, args):
             env.vars[p_] = a
+        extra = {}
         for k, v in kwargs.items():
             if k not in ps + sc.kwonly():
+                if sc.has_kwargs():
+                    extra[k] = v
+                    continue
                 raise Crash(f"{sc.name}() got an unexpected keyword argument `{k}`")
             if k in env.vars:
                 raise Crash(f"{sc.name}() got multiple values for argument `{k}`")
             env.vars[k] = v
+        if sc.has_kwargs():
+            env.vars[sc.node.args.kwarg.arg] = extra
         for p_ in ps + sc.kwonly():
             if p_ not in env.vars:
                 d = sc.default_of(p_)
@@ -1217,7 +1486,7 @@ class Interp:
                 # jit(static_argnums=...) used as decorator factory
                 return Partial(self.ext(name), [], kwargs)
             return args[0]
-        if name == "functools.partial":
+        if name in ("functools.partial", "jax.tree_util.Partial"):
             if not args:
                 raise Crash("partial() without a callable")
             return Partial(args[0], args[1:], kwargs)
@@ -1248,6 +1517,41 @@ class Interp:
             return NTClass(args[0] if args and isinstance(args[0], str) else "?", fields, tuple(d) if d is not None else ())
         if name == "builtins.print":
             return None
+        last = name.split(".")[-1]
+        if name in ("builtins.str", "builtins.int", "builtins.float", "builtins.bool", "builtins.abs", "builtins.repr", "builtins.min", "builtins.max",
+                    "builtins.sum", "builtins.sorted", "builtins.any", "builtins.all") and not kwargs:
+            flat = []
+            for x in args:
+                flat += list(x) if isinstance(x, (tuple, list)) else [x]
+            if args and all(x is None or isinstance(x, (bool, int, float, str)) for x in flat) and not (name == "builtins.float" and isinstance(args[0], str)):
+                try:
+                    r = getattr(_bi, last)(*args)
+                except (TypeError, ValueError):
+                    raise Crash(f"{last}() of these constants raises")
+                return list(r) if last == "sorted" else r
+        if name.startswith(("jax.numpy.", "numpy.")):
+            try:
+                if last == "broadcast_to" and len(args) + len(kwargs) == 2:
+                    r = self.as_broadcast(args[0], args[1] if len(args) > 1 else kwargs.get("shape"))
+                    if r is not None:
+                        return r
+                if last == "repeat" and args and len(args) <= 3 and set(kwargs) <= {"repeats", "axis"}:
+                    reps = args[1] if len(args) > 1 else kwargs.get("repeats")
+                    axis = args[2] if len(args) > 2 else kwargs.get("axis")
+                    x0 = self.strip_newaxis(args[0])
+                    if x0 is not None and reps is not None and isinstance(axis, int) and not isinstance(axis, bool) and axis == 0:
+                        return self.mk_bcast(x0, reps)
+                if last == "negative" and len(args) == 1 and not kwargs:
+                    v = args[0]
+                    if isinstance(v, (int, float)) and not isinstance(v, bool):
+                        return -v
+                    if isinstance(v, T) and v.op == "un" and v.args[0] == "-":
+                        return v.args[1]
+                    return self.mk("un", ("-", v))
+                if last == "shape" and len(args) == 1 and not kwargs and isinstance(args[0], T):
+                    return self.mk("attr", (args[0], "shape"))
+            except EvalError:
+                pass
         if name == "builtins.range":
             if all(isinstance(a, int) for a in args):
                 return list(range(*args))
@@ -1260,6 +1564,8 @@ class Interp:
                 return len(a)
             if isinstance(a, Rec):
                 return len(a.values)
+            if isinstance(a, T) and len(args) == 1 and not kwargs:
+                return self.dim(a, 0)                 # the length of an array is its leading extent
             return self.opaque(self.ext(name), args, kwargs)
         if name in ("builtins.tuple", "builtins.list"):
             if not args:
@@ -1267,6 +1573,8 @@ class Interp:
             try:
                 it = self.iterate(args[0])
             except EvalError:
+                if name.endswith("tuple") and self.shape_parts(args[0]) is not None:
+                    return args[0]                    # tuple(x.shape) is x.shape
                 return self.opaque(self.ext(name), args, kwargs)
             return tuple(it) if name.endswith("tuple") else list(it)
         if name == "builtins.enumerate":
@@ -1356,8 +1664,8 @@ class Interp:
                 items = self.iterate(itv)
                 generic = False
             except EvalError:
-                if not self.loop_once:
-                    raise
+                if not self.loop_once or self.depth > 1:
+                    raise                      # the generic iteration is for the loop of the analysed function itself, not for its helpers
                 items = [self.sym(f"loop#{len(self.loop_done)}")]
                 generic = True
             for x in items:
@@ -1408,6 +1716,28 @@ class Interp:
                 env.vars[al.asname or al.name] = v
         elif isinstance(st, (ast.Pass, ast.Global, ast.Nonlocal)):
             return
+        elif isinstance(st, ast.With):
+            # a context manager of the numerical libraries (named scope, config override) does not change the values computed in its body
+            for it in st.items:
+                cm = self.eval(it.context_expr, env)
+                if it.optional_vars is not None:
+                    self.assign(it.optional_vars, self.mk("entered", (cm,)), env)
+            self.block(st.body, env)
+        elif isinstance(st, ast.Try):
+            try:
+                self.block(st.body, env)
+            except (Crash, Raised) as ex:
+                if st.handlers:
+                    raise EvalError(f"exception inside try/except ({str(ex)[:60]}): which handler runs is not decided")
+                raise
+            self.block(st.orelse, env)
+            self.block(st.finalbody, env)
+        elif isinstance(st, ast.Match):
+            subj = self.eval(st.subject, env)
+            for case in st.cases:
+                if self.match_pattern(case.pattern, subj, env) and (case.guard is None or self.truth(self.eval(case.guard, env))):
+                    self.block(case.body, env)
+                    break
         elif isinstance(st, ast.Assert):
             return
         elif isinstance(st, ast.Delete):
@@ -1422,6 +1752,21 @@ class Interp:
             raise _Continue()
         else:
             raise EvalError(f"statement {type(st).__name__}")
+
+    def match_pattern(self, pat, subj, env):
+        if isinstance(pat, ast.MatchValue):
+            return self.truth(self.compare("==", subj, self.eval(pat.value, env)))
+        if isinstance(pat, ast.MatchSingleton):
+            return self.truth(self.compare("is", subj, pat.value))
+        if isinstance(pat, ast.MatchOr):
+            return any(self.match_pattern(q, subj, env) for q in pat.patterns)
+        if isinstance(pat, ast.MatchAs):
+            if pat.pattern is not None and not self.match_pattern(pat.pattern, subj, env):
+                return False
+            if pat.name is not None:
+                env.vars[pat.name] = subj
+            return True
+        raise EvalError(f"match pattern {type(pat).__name__}")
 
     def assign(self, t, v, env):
         if isinstance(t, ast.Name):
@@ -1450,6 +1795,8 @@ class Interp:
                     k = len(vs) - (nfix - i)
                     vs = vs[:i] + [list(vs[i:k])] + vs[k:]
             elif isinstance(v, T):
+                if not star and v.op == "attr" and v.args[1] == "shape":
+                    self.ranks[self.canon(v.args[0])] = nfix          # `a, b = x.shape` runs only when x has two axes
                 if star:
                     i = star[0]
                     after = nfix - i
